@@ -36,6 +36,7 @@ func (c *Conversation) processAKE(msgType byte, msg []byte) (toSend []messageWit
 
 	var toSendSingle messageWithHeader
 	var toSendExtra []messageWithHeader
+	stateBefore := c.ake.state.identity()
 
 	switch msgType {
 	case msgTypeDHCommit:
@@ -61,7 +62,10 @@ func (c *Conversation) processAKE(msgType byte, msg []byte) (toSend []messageWit
 		err = newOtrErrorf("unknown message type 0x%X", msgType)
 	}
 
-	c.ake.lastStateChange = time.Now()
+	// only a message the state machine acted upon counts as a step of the key exchange
+	if err == nil && (len(toSendSingle) > 0 || c.ake.state.identity() != stateBefore) {
+		c.ake.lastStateChange = time.Now()
+	}
 
 	messages := append([]messageWithHeader{toSendSingle}, toSendExtra...)
 	toSend = compactMessagesWithHeader(messages...)
